@@ -260,6 +260,12 @@ class Gen:
             acts = [self.action(unguarded=0.0) for _ in range(r.choice([1, 3, 6]))]
             L.append("do " + " ; ".join(a for a in acts if "quit" not in a))
             L.append("main")
+        # byte pattern the library's malloc()ed blocks come back filled with (harness: __wrap_malloc): a field the library forgets to
+        # initialise then reads as all-ones / 1 / 0xa5.. instead of zero. Derived from the finished scenario, not from the PRNG stream.
+        pat = [255, None, 1, 165][(len(L) * 7919 + sum(len(x) for x in L)) % 4]
+        if pat is not None:
+            ci = next(i for i, l in enumerate(L) if l.startswith("cfg "))
+            L[ci] += f" fill={pat}"
         return L
 
 
